@@ -17,6 +17,7 @@ import (
 	"github.com/relex/slog-agent/base"
 	"github.com/relex/slog-agent/defs"
 	"github.com/relex/slog-agent/output/fluentdforward"
+	"github.com/prometheus/client_golang/prometheus"
 	"github.com/relex/slog-agent/run"
 
 	"verifharness/vh"
@@ -38,6 +39,21 @@ type ConnSpec struct {
 	FragEvery int    `json:"fragEvery,omitempty"` // write the stream in fragments of this many bytes (0 = one write per record)
 	Close     string `json:"close"`               // graceful | open (still open when the agent is stopped)
 	Garbage   bool   `json:"garbage,omitempty"`   // a non-record line first
+	StartMs   int    `json:"startMs,omitempty"`   // ms to wait before opening the connection
+}
+
+// ReloadSpec is one configuration reload (what SIGHUP triggers) placed during the traffic of a generation.
+type ReloadSpec struct {
+	AtMs    int    `json:"atMs"`    // ms after the clients were started
+	Variant string `json:"variant"` // valid | invalid | incompatible
+}
+
+// ReloadObs is what was observed around one reload.
+type ReloadObs struct {
+	Gen        int
+	Variant    string
+	Start, End time.Time
+	OK, Failed float64 // increase of slogagent_reloads_total{status=success|failure} across the call
 }
 
 type Generation struct {
@@ -46,7 +62,8 @@ type Generation struct {
 	Down      []bool               `json:"down,omitempty"` // per output: the upstream does not listen at all during this generation
 	StopAfter int                  `json:"stopAfter"`  // ms to wait after the input was read before stopping (0 = at once)
 	StopMid   bool                 `json:"stopMid,omitempty"` // stop while connections are still sending
-	Reload    string               `json:"reload,omitempty"`  // "", valid, invalid, incompatible: SIGHUP-equivalent during the traffic (reloader mode)
+	Reload    string               `json:"reload,omitempty"`  // "", valid, invalid, incompatible: one reload after the traffic was read (reloader mode)
+	Reloads   []ReloadSpec         `json:"reloads,omitempty"` // reloads while the clients are sending (reloader mode)
 }
 
 type Scenario struct {
@@ -80,6 +97,7 @@ type Expected struct {
 	Seq     int // sequence within (gen, conn, key)
 	Key     string
 	Kind    int
+	DialAt  time.Time // when the client connection of this record was opened
 	Must    bool // provably read by the agent (graceful connection whose records were all counted)
 	Line    int  // length of the line in bytes (without newline)
 }
@@ -109,6 +127,7 @@ type Outcome struct {
 	ServerErrs []string
 	Crash     *vh.Finding
 	Notes     []string
+	Reloads   []ReloadObs
 	Hang      string // goroutine dump if the scenario did not finish within the budget
 	instances int
 }
@@ -326,6 +345,7 @@ func runScenario(sc Scenario) *Outcome {
 		panic(err)
 	}
 
+	activeVariant := "" // the variant in the configuration file (a valid reload stays in effect for later generations)
 	for gi, g := range sc.Gens {
 		for i, s := range servers {
 			down := i < len(g.Down) && g.Down[i]
@@ -350,6 +370,39 @@ func runScenario(sc Scenario) *Outcome {
 		if err != nil {
 			panic("agent does not start with the harness configuration: " + err.Error())
 		}
+		// reloads during the traffic
+		var rwg sync.WaitGroup
+		var reloadCrash *vh.Finding
+		if len(g.Reloads) > 0 && ag.reload != nil {
+			rwg.Add(1)
+			t0 := time.Now()
+			go func() {
+				defer rwg.Done()
+				for _, rs := range g.Reloads {
+					if d := time.Until(t0.Add(time.Duration(rs.AtMs) * time.Millisecond)); d > 0 {
+						time.Sleep(d)
+					}
+					_ = os.WriteFile(confPath, []byte(configText(sc, filepath.Join(root, "buf"), addrs, rs.Variant)), 0o644)
+					before := vh.Gather(prometheus.DefaultGatherer)
+					ro := ReloadObs{Gen: gi, Variant: rs.Variant, Start: time.Now()}
+					if f := vh.Protect(ag.reload); f != nil { // in the agent this is the SIGHUP goroutine: the process dies
+						f.Key = "reload:" + f.Key
+						reloadCrash = f
+						return
+					}
+					ro.End = time.Now()
+					after := vh.Gather(prometheus.DefaultGatherer)
+					ro.OK = after.Sum("slogagent_reloads_total", "status=success") - before.Sum("slogagent_reloads_total", "status=success")
+					ro.Failed = after.Sum("slogagent_reloads_total", "status=failure") - before.Sum("slogagent_reloads_total", "status=failure")
+					if rs.Variant == "valid" {
+						activeVariant = "valid"
+					} else {
+						_ = os.WriteFile(confPath, []byte(configText(sc, filepath.Join(root, "buf"), addrs, activeVariant)), 0o644)
+					}
+					out.Reloads = append(out.Reloads, ro)
+				}
+			}()
+		}
 		// clients
 		var wg sync.WaitGroup
 		var cmu sync.Mutex
@@ -361,6 +414,13 @@ func runScenario(sc Scenario) *Outcome {
 			wg.Add(1)
 			go func() {
 				defer wg.Done()
+				if cs.StartMs > 0 {
+					select {
+					case <-time.After(time.Duration(cs.StartMs) * time.Millisecond):
+					case <-stopClients:
+						return
+					}
+				}
 				conn, err := net.Dial("tcp", ag.addr)
 				if err != nil {
 					cmu.Lock()
@@ -371,6 +431,7 @@ func runScenario(sc Scenario) *Outcome {
 				if tc, ok := conn.(*net.TCPConn); ok {
 					_ = tc.SetNoDelay(true)
 				}
+				dialAt := time.Now()
 				seqByKey := map[string]int{}
 				var stream []byte
 				pendingLines, pendingBytes := 0, 0 // lines in `stream`, not yet written
@@ -423,6 +484,7 @@ func runScenario(sc Scenario) *Outcome {
 					seq := seqByKey[key]
 					seqByKey[key]++
 					l, e := line(gi, ci, seq, r, key)
+					e.DialAt = dialAt
 					if r.Pause > 0 {
 						if ok = flush(); !ok {
 							break
@@ -473,6 +535,11 @@ func runScenario(sc Scenario) *Outcome {
 		wg.Wait()
 		if !g.StopMid {
 			close(stopClients)
+		}
+		rwg.Wait()
+		if reloadCrash != nil {
+			out.Crash = reloadCrash
+			return out
 		}
 		// wait until the agent has read everything that was sent on gracefully closed connections
 		drained := false
